@@ -154,7 +154,7 @@ class ModbusSocketFramer(ModbusFramer):
                     else:
                         _logger.debug("Not a valid unit id - {}, "
                                       "ignoring!!".format(self._header['uid']))
-                        self.resetFrame()
+                        self.advanceFrame()
                 elif self._header['len'] >= 2:
                     # the frame is not complete yet: keep what we have
                     # and wait for the rest of it
